@@ -99,6 +99,9 @@ def coq_make(targets, timeout=1500, jobs=16):
 def coqc_file(relpath, timeout=300):
     """Compile one file of coq/ directly (no make); returns (ok, output)."""
     rc, out = sh("timeout %d coqc -q -Q . %s %s 2>&1" % (timeout, LOGICAL, relpath), cwd=COQ, timeout=timeout + 30)
+    if rc in (124, 137, 139) or (rc != 0 and "Error" not in out):
+        # killed by the time limit / memory pressure on a loaded machine: once more with a longer limit (a Coq error fails again)
+        rc, out = sh("timeout %d coqc -q -Q . %s %s 2>&1" % (3 * timeout, LOGICAL, relpath), cwd=COQ, timeout=3 * timeout + 30)
     return rc == 0, out
 
 
@@ -261,6 +264,14 @@ class Ctx:
             out, _ = p.communicate()
             out = "\n".join(l for l in out.splitlines() if "conda.cli.condarc" not in l)
             res[name] = (p.returncode == 0, out)
+        # a case file that failed is compiled once more, alone and with a longer time limit: on a loaded machine coqc can be
+        # killed by the limit (or by memory pressure) after it has evaluated everything; a real Coq error fails again
+        for name, rel in rels:
+            if not res[name][0]:
+                rc, out = sh("timeout %d coqc -q -Q . %s %s 2>&1" % (3 * timeout, LOGICAL, rel), cwd=COQ, timeout=3 * timeout + 60)
+                out = "\n".join(l for l in out.splitlines() if "conda.cli.condarc" not in l)
+                self.notes.append("case file %s: first compilation failed (rc != 0), recompiled alone: rc=%s" % (rel, rc))
+                res[name] = (rc == 0, out)
         return res
 
     def tie(self, name, kind, cases, nontrivial, mismatches, exhaustive=False, note=""):
